@@ -277,6 +277,11 @@ def run(env, rep):
             "Connected": {S["PlayRequested"], S["Playing"], S["PublishRequested"], S["Publishing"]}}
     n9, bad9 = 0, []
     for name, paths in sorted(traces.items()):
+        hb9 = bodies.get(name)
+        if hb9 is not None and not hb9.is_pub and not name.startswith("handle_"):
+            # a private helper that is not a message handler is judged where it is followed in place:
+            # on the paths of the public functions and handlers that call it
+            continue
         for p in paths:
             st = [t for t in p if t[0] == "store" and t[1] == "current_state"]
             touch = [t for t in p if (t[0] == "store" and t[1] == "active_stream_id") or (t[0] == "mut" and t[2] == "active_stream_id" and t[1].split("::")[-1] not in ("as_ref", "is_some", "is_none", "clone"))]
